@@ -35,6 +35,21 @@ Annotated(files, names) ==
                  <<"fname", names[k]>>, <<"nf", ToString(Len(files[k].header) + 4)>> >>]])
 FinalNR(files) == Before(files, Len(files) + 1)
 
+\* CSV-lite and PPRINT input may change schema INSIDE a file: "a blank line followed by a new header line" starts a new
+\* block (file-formats.md, "Schema change"). A block file is a sequence of blocks [header, rows]; its records are the blocks'
+\* records in order, FNR counts them through the whole file, NR through all files.
+BRecordsOf(bf) == Concat([b \in 1..Len(bf) |-> RecordsOf(bf[b])])
+BHeaders(bf) == Concat([b \in 1..Len(bf) |-> [j \in 1..Len(bf[b].rows) |-> bf[b].header]])
+RECURSIVE BBefore(_, _)
+BBefore(bfiles, k) == IF k <= 1 THEN 0 ELSE BBefore(bfiles, k - 1) + Len(BRecordsOf(bfiles[k - 1]))
+AnnotatedB(bfiles, names) ==
+  Concat([k \in 1..Len(bfiles) |->
+     LET recs == BRecordsOf(bfiles[k])  hs == BHeaders(bfiles[k]) IN
+     [j \in 1..Len(recs) |->
+         recs[j] \o << <<"nr", ToString(BBefore(bfiles, k) + j)>>, <<"fnr", ToString(j)>>, <<"fnum", ToString(k)>>,
+                       <<"fname", names[k]>>, <<"nf", ToString(Len(hs[j]) + 4)>> >>]])
+BFinalNR(bfiles) == BBefore(bfiles, Len(bfiles) + 1)
+
 \* "The input-record reader assigns their values" (reference-dsl-variables.md; `repeat -n 3 then put '$nr = NR'` shows the
 \* reader's NR three times): the context variables belong to the record, wherever in the program or the chain they are
 \* consulted.  A use is [mode, sel]: mode "every" (the assignments run on every record), "cond" (they run under the pattern
